@@ -5,7 +5,8 @@ import json
 from . import core
 from .core import cq_Z, cq_bool, cq_list
 
-THEOREMS = ["C23_scalar", "C23_checked", "C23_checked_exact", "C23_repo_now_two_part", "C23_in_range_partial", "C23_2d_checked", "C23_slice_refuted", "C23_slice_wrap_refuted", "C23_loop_refuted",
+THEOREMS = ["C23_scalar", "C23_checked", "C23_checked_exact", "C23_repo_now_two_part",
+            "C23_scalar_symbol", "C23_scalar_symbol_refuted", "C23_in_range_partial", "C23_2d_checked", "C23_slice_refuted", "C23_slice_wrap_refuted", "C23_loop_refuted",
             "C23_three_part_refuted", "C23_example"]
 
 PREAMBLE = "From Coq Require Import ZArith List.\nImport ListNotations.\nFrom PV Require Import Model.C23_index.\nOpen Scope Z_scope.\n"
@@ -13,6 +14,39 @@ PREAMBLE = "From Coq Require Import ZArith List.\nImport ListNotations.\nFrom PV
 TAG_SLICE = "slice-outside-1..n"
 TAG_LOOP = "loop-index-outside-1..n"
 TAG_THREE = "three-part-range"
+TAG_SCALAR_LOOP = "loop-subscript-on-scalar"
+
+
+# ---- integer index expressions of the loop variable: ["i"] | ["c",k] | ["add"|"sub"|"mul", e1, e2] ----
+def ev(e, i):
+    if e[0] == "i":
+        return i
+    if e[0] == "c":
+        return e[1]
+    a, b = ev(e[1], i), ev(e[2], i)
+    return a + b if e[0] == "add" else a - b if e[0] == "sub" else a * b
+
+
+def ex_text(e, top=True):
+    if e[0] == "i":
+        return "i"
+    if e[0] == "c":
+        return str(e[1]) if e[1] >= 0 else "(0-%d)" % -e[1]
+    t = "%s%s%s" % (ex_text(e[1], False), {"add": "+", "sub": "-", "mul": "*"}[e[0]], ex_text(e[2], False))
+    return t if top else "(%s)" % t
+
+
+def ex_coq(e):
+    if e[0] == "i":
+        return "LVar"
+    if e[0] == "c":
+        return "(LConst %s)" % cq_Z(e[1])
+    return "(%s %s %s)" % ({"add": "LAdd", "sub": "LSub", "mul": "LMul"}[e[0]], ex_coq(e[1]), ex_coq(e[2]))
+
+
+def bare(u):
+    """the subscript is the loop variable itself"""
+    return (u[0] in ("loop", "loop3") and u[-1] == 0) or (u[0] == "loopx" and u[3] == ["i"])
 
 
 # ---- independent reference: Modelica subscript semantics (the property's spec) ---------------
@@ -48,6 +82,8 @@ def spec(n, u):
         if r is None:
             return ("err", "zero step")
         sel = [(i + u[4], i) for i in r]
+    elif k == "loopx":
+        sel = [(ev(u[3], i), i) for i in mrange(u[1], 1, u[2])]
     else:
         raise ValueError(u)
     bad = [e for e, _ in sel if not 1 <= e <= n]
@@ -57,11 +93,13 @@ def spec(n, u):
 
 
 def is_loop(u):
-    return u is not None and u[0] in ("loop", "loop3")
+    return u is not None and u[0] in ("loop", "loop3", "loopx")
 
 
 def expected(case):
     """-> ('err', why, dim) | ('ok', rows) with rows = list of [r, c, rhs]; ordered for 1-D, sorted for 2-D."""
+    if case.get("scalar"):
+        return ("err", "subscript on a scalar", 0)
     n, m, u, v = case["n"], case.get("m"), case["u"], case.get("v")
     s1 = spec(n, u)
     if v is None:
@@ -87,12 +125,16 @@ def outside(n, u):
         return not (1 <= u[1] <= n and 1 <= u[2] <= n)
     if k == "loop":
         return any(not 1 <= i + u[3] <= n for i in mrange(u[1], 1, u[2]))
+    if k == "loopx":
+        return any(not 1 <= ev(u[3], i) <= n for i in mrange(u[1], 1, u[2]))
     if k == "int":
         return not 1 <= u[1] <= n
     return False
 
 
 def tag_of(case, dim=None):
+    if case.get("scalar"):
+        return TAG_SCALAR_LOOP if bare(case["u"]) else "subscript-on-scalar"
     subs = [(case["n"], case["u"])] + ([(case["m"], case["v"])] if case.get("v") is not None else [])
     if any(u[0] in ("sl3", "loop3") for _, u in subs):
         return TAG_THREE
@@ -101,7 +143,7 @@ def tag_of(case, dim=None):
         if outside(n, u):
             if u[0] == "sl":
                 return TAG_SLICE
-            if u[0] == "loop":
+            if u[0] in ("loop", "loopx"):
                 return TAG_LOOP
             return "scalar-outside-1..n"
     return "wrong-selection"
@@ -151,17 +193,40 @@ def sub_text(u):
         return "%s:%s" % (lit(u[1], None), lit(u[2], None))
     if k == "sl3":
         return "%s:%s:%s" % (lit(u[1], None), lit(u[2], None), lit(u[3], None))
+    if k == "loopx":
+        return ex_text(u[3])
     off = u[-1]
     return "i" if off == 0 else ("i+%d" % off if off > 0 else "i-%d" % -off)
 
 
 def loop_text(u):
-    if u[0] == "loop":
+    if u[0] in ("loop", "loopx"):
         return "%d:%s" % (u[1], lit(u[2], None))
     return "%d:%d:%s" % (u[1], u[2], lit(u[3], None)) if False else "%d:%s:%s" % (u[1], lit(u[2], None), lit(u[3], None))
 
 
+SCALAR_FORMS = {
+    # form: (classes, declaration, reference with %s for the subscript, flattened name, what it is)
+    "plain": ("", "Real x;", "x[%s]", "x", "Real x"),
+    "member": ("model A\n  Real x;\n  Real v[3];\nend A;\n", "A a[2];", "a[1].x[%s]", "a.x", "scalar member x of A a[2]"),
+    "component": ("model A\n  Real x;\n  Real v[3];\nend A;\n", "A a;", "a[%s].v[1]", "a.v", "scalar component A a"),
+}
+
+
+def render_scalar(case):
+    classes, decl, ref, target, _ = SCALAR_FORMS[case["scalar"]]
+    u = case["u"]
+    ref = ref % sub_text(u)
+    if is_loop(u):
+        eq = "  for i in %s loop\n    %s = i;\n  end for;" % (loop_text(u), ref)
+    else:
+        eq = "  %s = 0;" % ref
+    return "%smodel M\n  %s\nequation\n%s\nend M;\n" % (classes, decl, eq), [], target
+
+
 def render(case):
+    if case.get("scalar"):
+        return render_scalar(case)[:2]
     n, m, u, v = case["n"], case.get("m"), case["u"], case.get("v")
     dims = [n] if v is None else [n, m]
     subs = [u] if v is None else [u, v]
@@ -180,10 +245,15 @@ def render(case):
 def show(case):
     txt, _ = render(case)
     body = txt.split("equation\n")[1].rsplit("\nend M", 1)[0]
+    if case.get("scalar"):
+        return "`%s; %s`" % (SCALAR_FORMS[case["scalar"]][4], " ".join(body.split()))
     return "`Real x[%s]; %s`" % (", ".join(str(d) for d in render(case)[1]), " ".join(body.split()))
 
 
 def child_case(case):
+    if case.get("scalar"):
+        txt, dims, target = render_scalar(case)
+        return {"text": txt, "dims": dims, "params": {}, "target": target}
     txt, dims = render(case)
     return {"text": txt, "dims": dims, "params": {}}
 
@@ -221,6 +291,33 @@ def three_1d(n, w=2):
     return out
 
 
+def exprs(n):
+    """index expressions beyond i+k: k-i, 2*i-k, (i-k)*(i-k)[+1], i*i-k, and the bare variable"""
+    i = ["i"]
+    out = [i]
+    out += [["sub", ["c", k], i] for k in range(0, n + 3)]
+    out += [["sub", ["mul", ["c", 2], i], ["c", k]] for k in range(0, 4)]
+    for k in range(1, 4):
+        d = ["sub", i, ["c", k]]
+        out += [["mul", d, d], ["add", ["mul", d, d], ["c", 1]]]
+    out += [["sub", ["mul", i, i], ["c", k]] for k in range(0, 3)]
+    return out
+
+
+def loopx_1d(n):
+    return [["loopx", a, b, e] for a in range(0, 4) for b in range(a - 1, n + 2) for e in exprs(n)]
+
+
+def scalar_cases():
+    subs = [["int", k] for k in (-1, 0, 1, 2)] + [["colon"]]
+    subs += [["sl", a, b] for a in (0, 1, 2) for b in (0, 1, 2)] + [["sl", -1, 1]]
+    subs += [["sl3", 1, 1, 1], ["sl3", 1, 1, 2], ["sl3", 0, 1, 1]]
+    subs += [["loop", a, b, 0] for a, b in ((1, 1), (1, 2), (0, 0), (1, 0), (0, 1), (2, 2))]
+    subs += [["loop", 1, 1, 1], ["loop", 2, 2, -1], ["loop", 1, 0, 1], ["loop3", 1, 1, 1, 0], ["loop3", 1, 1, 1, 1]]
+    subs += [["loopx", 1, 1, ["i"]], ["loopx", 1, 1, ["sub", ["c", 2], ["i"]]], ["loopx", 1, 2, ["mul", ["i"], ["i"]]]]
+    return [{"scalar": f, "u": u} for f in ("plain", "member", "component") for u in subs]
+
+
 def dedup(cases):
     seen, out = set(), []
     for c in cases:
@@ -248,13 +345,18 @@ def gen_cases(ctx):
         cases += L[:ctx.scaled(45, 400)]
         T = dedup([{"n": n, "u": u} for u in three_1d(n)])
         rng.shuffle(T)
-        cases += T[:ctx.scaled(40, 500)]
+        cases += T[:ctx.scaled(30, 500)]
+        X = [{"n": n, "u": u} for u in loopx_1d(n)]
+        rng.shuffle(X)
+        cases += X[:ctx.scaled(35, 300)]
+    # subscripts on scalars (plain, scalar member of a component array, scalar component): all of them
+    cases += scalar_cases()
     # 2-D without a loop: scalar / colon / slice in both positions
     two = []
     for n, m in itertools.product(ctx.scaled([1, 2, 3], [1, 2, 3, 4]), repeat=2):
         W1 = window_1d(n, 1) + [["int", -2], ["int", n + 2], ["sl", -2, n], ["sl", 1, n + 2]]
         W2 = window_1d(m, 1) + [["int", -2], ["int", m + 2], ["sl", -2, m], ["sl", 1, m + 2]]
-        for _ in range(ctx.scaled(30, 300)):
+        for _ in range(ctx.scaled(26, 300)):
             u, v = rng.choice(W1), rng.choice(W2)
             if rng.random() < 0.08:
                 u = rng.choice(three_1d(n, 1)[: (n + 3) ** 3])
@@ -267,7 +369,9 @@ def gen_cases(ctx):
             pos = rng.randrange(2)
             dl, do = (n, m) if pos == 0 else (m, n)
             lp = rng.choice(loops_1d(dl))
-            if rng.random() < 0.1:
+            if rng.random() < 0.3:
+                lp = rng.choice(loopx_1d(dl))
+            elif rng.random() < 0.1:
                 lp = ["loop3", rng.randint(0, dl + 1), rng.randint(1, 3), rng.randint(0, dl + 2), rng.choice([0, 0, -1, 1])]
             kind = rng.random()
             if kind < 0.45:
@@ -298,12 +402,14 @@ PROBES = [
     ("mod3", {"n": 5, "u": ["loop3", 1, 3, 2, 0]}),
     ("empty_ok", {"n": 3, "u": ["loop", 3, 1, 1]}),
     ("empty_ok", {"n": 2, "u": ["loop", 2, 1, -1]}),
+    ("chk_scalar_loop", {"scalar": "plain", "u": ["loop", 1, 1, 0]}),
+    ("chk_scalar_loop", {"scalar": "member", "u": ["loop", 1, 1, 0]}),
 ]
 
 
 def derive_cfg(ctx):
     res = core.run_child(ctx, "c23", [child_case(c) for _, c in PROBES])
-    votes = {"chk_slice": [], "chk_loop": [], "mod3": [], "empty_ok": []}
+    votes = {"chk_slice": [], "chk_loop": [], "mod3": [], "empty_ok": [], "chk_scalar_loop": []}
     for (flag, c), r in zip(PROBES, res):
         if flag == "empty_ok":
             votes[flag].append(r.get("sel") == [])
@@ -318,7 +424,7 @@ def derive_cfg(ctx):
 
 
 def cfg_term(cfg):
-    return "(Cfg %s %s %s %s)" % (cq_bool(cfg["chk_slice"]), cq_bool(cfg["chk_loop"]), cq_bool(cfg["mod3"]), cq_bool(cfg["empty_ok"]))
+    return "(Cfg %s)" % " ".join(cq_bool(cfg[k]) for k in ("chk_slice", "chk_loop", "mod3", "empty_ok", "chk_scalar_loop"))
 
 
 def enc_sub(u):
@@ -327,6 +433,8 @@ def enc_sub(u):
         return "(Int %s)" % cq_Z(u[1])
     if k == "colon":
         return "Colon"
+    if k == "loopx":
+        return "(LoopX %s %s %s)" % (cq_Z(u[1]), cq_Z(u[2]), ex_coq(u[3]))
     name = {"sl": "Sl", "sl3": "Sl3", "loop": "LoopV", "loop3": "LoopV3"}[k]
     return "(%s %s)" % (name, " ".join(cq_Z(x) for x in u[1:]))
 
@@ -336,10 +444,13 @@ def encode(case, res):
         kind, sel = (1 if res["exc"] == "ValueError" else 2), []
     else:
         kind = 0
-        if case.get("v") is None:
+        if case.get("scalar") or case.get("v") is None:
             sel = [r[0] for r in res["sel"]]
         else:
             sel = sorted(r[0] * 100 + r[1] for r in res["sel"])
+    if case.get("scalar"):
+        k = {"plain": 1, "member": 1, "component": 3}[case["scalar"]]   # size1() of what the loop variable indexes
+        return "(%s, %s, %s, %s)" % (cq_Z(k), enc_sub(case["u"]), cq_Z(kind), cq_list([cq_Z(x) for x in sel]))
     d2 = "None" if case.get("v") is None else "(Some (%s, %s))" % (cq_Z(case["m"]), enc_sub(case["v"]))
     return "(%s, %s, %s, %s, %s)" % (cq_Z(case["n"]), enc_sub(case["u"]), d2, cq_Z(kind), cq_list([cq_Z(x) for x in sel]))
 
@@ -384,12 +495,14 @@ def run(ctx):
     cases += gen_cases(ctx)
     results = run_children(ctx, [child_case(c) for c in cases])
     # (a) property oracle
-    dist = {"int": 0, "colon": 0, "sl": 0, "sl3": 0, "loop": 0, "loop3": 0, "two_d": 0, "expected_error": 0,
+    dist = {"int": 0, "colon": 0, "sl": 0, "sl3": 0, "loop": 0, "loop3": 0, "loopx": 0, "two_d": 0, "on_scalar": 0, "expected_error": 0,
             "expected_selection": 0, "impl_ValueError": 0, "impl_other_exception": 0, "impl_selection": 0}
     nontrivial = set()
     harness_bad = []
     for c, r in zip(cases, results):
         dist[c["u"][0]] += 1
+        if c.get("scalar"):
+            dist["on_scalar"] += 1
         if c.get("v") is not None:
             dist[c["v"][0]] += 1
             dist["two_d"] += 1
@@ -402,12 +515,15 @@ def run(ctx):
                 harness_bad.append((c, r))
             core.report(ctx, why[0], why[1], {"input": c, "model_source": render(c)[0], "observed": r})
         if e[0] == "err" or len(e[1]) >= 1:
-            nontrivial.add(json.dumps([c["n"], c.get("m"), c["u"], c.get("v")]))
+            nontrivial.add(json.dumps([c.get("scalar"), c.get("n"), c.get("m"), c["u"], c.get("v")]))
     # (b) correspondence, inside Coq
-    idx = [i for i, r in enumerate(results) if "sel" in r or "exc" in r]
+    idx = [i for i, r in enumerate(results) if ("sel" in r or "exc" in r) and not cases[i].get("scalar")]
+    sidx = [i for i, r in enumerate(results) if ("sel" in r or "exc" in r) and cases[i].get("scalar")]
     bad = core.coq_eval_cases(ctx, "idx", PREAMBLE, "Z * sub * option (Z * sub) * Z * list Z",
                               [encode(cases[i], results[i]) for i in idx], "check_case %s" % cfg_term(cfg), shard=200)
-    mism = None if bad is None else [idx[j] for j in bad]
+    sbad = core.coq_eval_cases(ctx, "scalar", PREAMBLE, "Z * sub * Z * list Z",
+                               [encode(cases[i], results[i]) for i in sidx], "check_scalar %s" % cfg_term(cfg), shard=400)
+    mism = None if (bad is None or sbad is None) else [idx[j] for j in bad] + [sidx[j] for j in sbad]
     ctx.oblige("correspondence:model-vs-get_indexed_symbol+ForLoop", mism == [] and not harness_bad,
                "cfg=%s; mismatching: %s" % (cfg, [(show(cases[i]), results[i]) for i in (mism or [])[:6]]))
     if mism and not [v for v in ctx.violations if not v["no_input"]]:
@@ -423,7 +539,8 @@ def run(ctx):
     ctx.cov["distinct_nontrivial"] = len(nontrivial)
     ctx.cov["rule"] = ("generated Modelica models `Real x[n]` / `Real x[n,m]` with one equation or for-equation whose "
                        "subscripts come from: every scalar and two-part slice with bounds in [-2,n+2] (1-D, exhaustive), "
-                       "samples of for-loops with offsets, three-part ranges, and 2-D combinations; distinct by "
+                       "samples of for-loops with offsets and with non-affine index expressions (k-i, 2*i-k, (i-k)*(i-k), i*i-k), three-part ranges, "
+                       "2-D combinations, and every subscript form on scalar symbols (plain, member of a component array, component); distinct by "
                        "(n, m, subscripts); non-trivial = expected error or a non-empty selection; corpus %d" % n_corpus)
     ctx.cov["samples"] = [show(cases[n_corpus + 5]), show(cases[len(cases) // 2]), show(cases[-1])]
     ctx.notes["input_distribution"] = dist
@@ -433,8 +550,8 @@ def run(ctx):
         "CasADi's slice / index-vector semantics (ca_slice, ca_wrap) and NumPy's arange are modelled from their observed "
         "behaviour (validated on a window n<=4, bounds in [-7,7], steps -2..3) and exercised through generate() on every run",
         "subscripts are integer constants after get_integer(); subscripts depending on variables are out of scope",
-        "the model's configuration flags (chk_slice, chk_loop, mod3, empty_ok) are read off the behaviour of the tree under test on "
-        "eight probe inputs; C23_checked_exact / C23_repo_now_two_part apply to (true, true, _, true), three-part ranges need mod3",
+        "the model's configuration flags (chk_slice, chk_loop, mod3, empty_ok, chk_scalar_loop) are read off the behaviour of the tree "
+        "under test on ten probe inputs; C23_checked_exact / C23_repo_now_two_part apply to (true, true, _, true), three-part ranges need mod3",
     ]
 
 
